@@ -1,0 +1,107 @@
+//go:build verif
+
+package proxy
+
+import (
+	"context"
+	"net"
+	"time"
+
+	"go.minekube.com/common/minecraft/component"
+	"go.minekube.com/gate/pkg/edition/java/netmc"
+	"go.minekube.com/gate/pkg/edition/java/profile"
+	"go.minekube.com/gate/pkg/edition/java/proto/packet"
+	"go.minekube.com/gate/pkg/edition/java/proto/state"
+	"go.minekube.com/gate/pkg/gate/proto"
+	"go.minekube.com/gate/pkg/util/uuid"
+)
+
+// Verification hooks for property C17 (initial and fallback server choice). Add-only, no logic:
+// a constructor that builds a connectedPlayer the way HandleConn/authSessionHandler do (real netmc
+// connection over a caller-supplied net.Conn, caller-supplied virtual host), accessors and thin
+// forwarding functions to the unexported try-list code.
+
+// C17Player wraps a connectedPlayer.
+type C17Player struct{ p *connectedPlayer }
+
+// C17NewPlayer builds a connectedPlayer over raw with the given virtual host. The connection is the
+// real netmc connection (its read loop is NOT started); its active session handler is the
+// initialConnectSessionHandler.
+func C17NewPlayer(px *Proxy, raw net.Conn, name string, virtualHost net.Addr) *C17Player {
+	cfg := px.config()
+	conn, _ := netmc.NewMinecraftConn(context.Background(), raw, proto.ServerBound,
+		time.Duration(cfg.ReadTimeout)*time.Millisecond,
+		time.Duration(cfg.ConnectionTimeout)*time.Millisecond,
+		cfg.Compression.Level, nil)
+	deps := &sessionHandlerDeps{
+		proxy:          px,
+		registrar:      px,
+		configProvider: px,
+		eventMgr:       px.event,
+		authenticator:  px.authenticator,
+		loginsQuota:    px.loginsQuota,
+	}
+	prof := &profile.GameProfile{ID: uuid.OfflinePlayerUUID(name), Name: name}
+	p := newConnectedPlayer(conn, prof, virtualHost, packet.LoginHandshakeIntent, false, nil, deps)
+	conn.SetActiveSessionHandler(state.Play, newInitialConnectSessionHandler(p))
+	return &C17Player{p: p}
+}
+
+// Player returns the wrapped player as the public interface value.
+func (c *C17Player) Player() Player { return c.p }
+
+// Active forwards to connectedPlayer.Active.
+func (c *C17Player) Active() bool { return c.p.Active() }
+
+// VirtualHostname forwards to connectedPlayer.getVirtualHostname.
+func (c *C17Player) VirtualHostname() string { return c.p.getVirtualHostname() }
+
+// NextServerToTry forwards to connectedPlayer.nextServerToTry (current may be nil).
+func (c *C17Player) NextServerToTry(current RegisteredServer) RegisteredServer {
+	return c.p.nextServerToTry(current)
+}
+
+// TryState returns the remembered candidate list and cursor.
+func (c *C17Player) TryState() (serversToTry []string, tryIndex int) {
+	c.p.mu.RLock()
+	defer c.p.mu.RUnlock()
+	return append([]string(nil), c.p.serversToTry...), c.p.tryIndex
+}
+
+// Servers returns the names of the connected and the in-flight server ("" when none).
+func (c *C17Player) Servers() (connected, inFlight string) {
+	c.p.mu.RLock()
+	defer c.p.mu.RUnlock()
+	if c.p.connectedServer_ != nil {
+		connected = c.p.connectedServer_.server.info.Name()
+	}
+	if c.p.connInFlight != nil {
+		inFlight = c.p.connInFlight.server.info.Name()
+	}
+	return
+}
+
+func (c *C17Player) c17conn(rs RegisteredServer) *serverConnection {
+	server, ok := rs.(*registeredServer)
+	if !ok || server == nil {
+		return nil
+	}
+	return newServerConnection(server, nil, c.p)
+}
+
+// SetConnected forwards to setConnectedServer with a serverConnection (built by newServerConnection,
+// no backend connection attached) for rs; nil clears the connected server.
+func (c *C17Player) SetConnected(rs RegisteredServer) { c.p.setConnectedServer(c.c17conn(rs)) }
+
+// SetInFlight forwards to setInFlightConnection the same way.
+func (c *C17Player) SetInFlight(rs RegisteredServer) { c.p.setInFlightConnection(c.c17conn(rs)) }
+
+// HandleConnectionErr2 forwards to connectedPlayer.handleConnectionErr2.
+func (c *C17Player) HandleConnectionErr2(rs RegisteredServer, kickReason, friendlyReason component.Component, safe bool) {
+	c.p.handleConnectionErr2(rs, kickReason, friendlyReason, safe)
+}
+
+// HandleDisconnectWithReason forwards to connectedPlayer.handleDisconnectWithReason (a backend kick).
+func (c *C17Player) HandleDisconnectWithReason(rs RegisteredServer, reason component.Component, safe bool) {
+	c.p.handleDisconnectWithReason(rs, reason, safe)
+}
